@@ -316,15 +316,22 @@ func (m *mirror) pop() {
 	}
 }
 
+// per-operation markers are printed in the quick tier only (the thorough tier would write millions)
+var thoroughMarkersOff bool
+
 func runHistory(r *vh.Rng, dbl bool, maxOps int, budget *int) *history {
 	h := &history{dbl: dbl, c1: r.PickInt(caps), c2: r.PickInt(caps), stuck: -1}
 	m := &mirror{cap: [2]int{h.c1, h.c2}}
 	im := newImpl(dbl, h.c1, h.c2)
 	n := 1 + r.Intn(maxOps)
 	next := 0
+	at("sequential history: %s capacities %d/%d", qname(dbl), h.c1, h.c2)
 	for i := 0; i < n; i++ {
 		o := genOp(r, m, dbl, &next, budget)
 		h.ops = append(h.ops, o)
+		if !thoroughMarkersOff {
+			at("sequential %s cap %d/%d op %d: %s (after %d earlier ops of this history)", qname(dbl), h.c1, h.c2, i, o.line(dbl), i)
+		}
 		before := dateutil.SystemNow()
 		res, sz, out := im.apply(o)
 		after := dateutil.SystemNow()
@@ -727,6 +734,7 @@ type concCfg struct {
 const stopPill = -7
 
 func concurrentRun(cfg concCfg) (fail string, detail map[string]interface{}) {
+	at("concurrent run %+v", cfg)
 	var mu sync.Mutex // protects the callback logs (callbacks run in the putting goroutine)
 	var failed, overflowed []int
 	var put func(p int, v interface{}, force bool) bool
@@ -1054,6 +1062,23 @@ func callbacksUnsettable() bool {
 func main() {
 	env, rep := vh.Parse("C11")
 	rng := vh.NewRng(env.Seed)
+	if *childMode == "" {
+		rep.Rule = "see the worker: sequential histories, concurrent producer/consumer runs, timed gets; the probes run in a worker process (a runtime fatal is a finding)"
+		defer func() {}()
+		superviseWithRule(env, rep)
+		return
+	}
+	workerMode = true
+	thoroughMarkersOff = env.Thorough
+	ppid := os.Getppid()
+	go func() {
+		for {
+			time.Sleep(2 * time.Second)
+			if os.Getppid() != ppid {
+				os.Exit(0) // the supervisor is gone
+			}
+		}
+	}()
 	rep.Rule = "sequential: one case per history (≤ 300 ops), non-trivial when at least one element is accepted, refused or evicted; " +
 		"concurrent: one case per (producers × consumers, capacity, put mode) run, non-trivial when ≥ 2 goroutines share the queue; " +
 		"timed: one case per GetTimeout call on an empty queue, non-trivial when the timeout is positive"
@@ -1073,6 +1098,11 @@ func main() {
 		os.Exit(0)
 	}()
 	phase := func(name string, d time.Duration, f func()) {
+		if skipped(name) {
+			rep.Note("phase %s left out: it crashed the previous worker (reported)", name)
+			return
+		}
+		at("phase %s", name)
 		if o := vh.GuardTimeout(d, f); !o.OK() {
 			rep.Fail("property", "RequestQueue:"+name+"-"+o.String(), "the "+name+" part of the harness did not complete: an operation of the implementation never returned ("+vh.Clip(o.Panic, 200)+")", nil)
 		}
@@ -1080,11 +1110,12 @@ func main() {
 	phase("blocked-consumers", 2*time.Minute, func() { blockedConsumers(env, rep) })
 	phase("fifo-wake", time.Minute, func() { fifoWake(env, rep) })
 	phase("nil-stress", 2*time.Minute, func() { nilStress(env, rep) })
-	sequential(env, rep, rng.Fork()) // every call inside is under its own watchdog
+	phase("sequential", deadline/2, func() { sequential(env, rep, rng.Fork()) }) // every call inside is under its own watchdog
 	phase("concurrent", deadline/2, func() { concurrent(env, rep, rng.Fork()) })
 	phase("timed", time.Minute, func() { timed(env, rep) })
 	phase("timed-under-clock-delta", 2*time.Minute, func() { timedUnderDelta(env, rep) })
 	phase("callback-window", time.Minute, func() { callbackWindow(env, rep) })
+	phase("clear-races", 2*time.Minute, func() { clearRaces(env, rep) })
 	phase("timed-arrival", time.Minute, func() { timedArrival(env, rep) })
 	phase("timed-out-then-put", time.Minute, func() { timedOutThenPut(env, rep) })
 	phase("known-findings", 30*time.Second, func() { knownFindings(rep) })
@@ -1115,18 +1146,15 @@ func callbackWindow(env *vh.Env, rep *vh.Report) {
 				var once sync.Once
 				innerDone := make(chan bool, 1)
 				var innerReturnedInFlight int32
-				inFlight := int32(0)
 				cb := func(v interface{}) {
 					once.Do(func() {
 						go func() {
-							ok := put(9999)
-							if atomic.LoadInt32(&inFlight) == 1 {
-								atomic.StoreInt32(&innerReturnedInFlight, 1)
-							}
-							innerDone <- ok
+							innerDone <- put(9999)
 						}()
 						select {
 						case ok := <-innerDone:
+							// exact: the callback — hence the PutForce — is still running
+							atomic.StoreInt32(&innerReturnedInFlight, 1)
 							innerDone <- ok
 						case <-time.After(150 * time.Millisecond):
 						}
@@ -1146,9 +1174,7 @@ func callbackWindow(env *vh.Env, rep *vh.Report) {
 				for i := 1; i <= capacity; i++ {
 					put(i)
 				}
-				atomic.StoreInt32(&inFlight, 1)
 				out := vh.GuardTimeout(5*time.Second, func() { putForce(1000) })
-				atomic.StoreInt32(&inFlight, 0)
 				name := qname(dbl)
 				rep.Case(fmt.Sprintf("callback-window %s cap=%d", name, capacity), true)
 				rep.Count("callback-window:runs")
@@ -1689,6 +1715,164 @@ func timedOutThenPut(env *vh.Env, rep *vh.Report) {
 					}
 				}
 			}
+		}
+	}
+}
+
+// ---------------------------------------------------------------- Clear racing with puts and gets (double queue and single queue)
+
+// clearRaces: producers on both inner lists (Put / PutForce), a blocking consumer, and a goroutine calling
+// Clear, all at once; then quiescence.  Checked: every goroutine finishes (a Get blocked while Clear and
+// Put happen returns); at quiescence Size() = Size1() + Size2() and no list exceeds its capacity; no
+// element is delivered twice; no element whose Put had returned before a Clear *began* is delivered after
+// that Clear *returned* (resurrection), unless a Put was in flight — elements carry the time their Put
+// returned.  (A Clear that clears the two lists in two separately locked steps instead of under the
+// queue's lock is sequentially invisible and, the inner lists being locked themselves, race-free; the
+// history that would expose it needs two complete puts inside a window of two mutex operations.  The
+// detector for that change is the tie-A obligation `queue_locks`; this stage checks what can be observed.)
+func clearRaces(env *vh.Env, rep *vh.Report) {
+	rounds := 12
+	if env.Thorough {
+		rounds = 150
+	}
+	for r := 0; r < rounds; r++ {
+		dbl := r%3 != 2
+		capacity := []int{0, 2, 5}[r%3]
+		at("clear-races round %d double=%v capacity=%d", r, dbl, capacity)
+		var put [2]func(interface{}) bool
+		var get func() interface{}
+		var clear func()
+		var sizes func() (int, int, int)
+		name := qname(dbl)
+		if dbl {
+			d := queue.NewRequestDoubleQueue(capacity, capacity)
+			put = [2]func(interface{}) bool{d.Put1, d.PutForce2}
+			if r%2 == 1 {
+				put = [2]func(interface{}) bool{d.PutForce1, d.Put2}
+			}
+			get, clear = d.Get, d.Clear
+			sizes = func() (int, int, int) { return d.Size(), d.Size1(), d.Size2() }
+		} else {
+			q := queue.NewRequestQueue(capacity)
+			put = [2]func(interface{}) bool{q.Put, q.PutForce}
+			get, clear = q.Get, q.Clear
+			sizes = func() (int, int, int) { s := q.Size(); return s, s, 0 }
+		}
+		const perProd = 300
+		base := time.Now()
+		putDone := make([]int64, 2*perProd+2) // time the Put of element id returned (0 = not accepted)
+		type clr struct{ t0, t1 int64 }
+		var clears []clr
+		var delivered []int
+		var deliveredAt []int64
+		var wg sync.WaitGroup
+		var producersLeft int32 = 2
+		for p := 0; p < 2; p++ {
+			wg.Add(1)
+			go func(p int) {
+				defer wg.Done()
+				for i := 0; i < perProd; i++ {
+					id := 1 + p*perProd + i
+					ok := put[p](id)
+					if ok || p == 1 || true {
+						atomic.StoreInt64(&putDone[id], int64(time.Since(base))+1)
+					}
+					if i%16 == 0 {
+						runtime.Gosched()
+					}
+				}
+				atomic.AddInt32(&producersLeft, -1)
+			}(p)
+		}
+		wg.Add(1)
+		go func() { // clearer
+			defer wg.Done()
+			for atomic.LoadInt32(&producersLeft) > 0 {
+				t0 := int64(time.Since(base))
+				clear()
+				clears = append(clears, clr{t0, int64(time.Since(base))})
+				runtime.Gosched()
+			}
+		}()
+		consumerDone := make(chan struct{})
+		go func() { // blocking consumer; stopped by a pill after quiescence
+			defer close(consumerDone)
+			for {
+				t0 := int64(time.Since(base)) // the Get that delivers x was *called* at t0
+				v := get()
+				x := unelem(v)
+				if x == stopPill {
+					return
+				}
+				delivered = append(delivered, x)
+				deliveredAt = append(deliveredAt, t0)
+			}
+		}()
+		fin := make(chan struct{})
+		go func() { wg.Wait(); close(fin) }()
+		bad := ""
+		select {
+		case <-fin:
+		case <-time.After(15 * time.Second):
+			bad = "producers / Clear did not finish within 15 s"
+		}
+		if bad == "" {
+			// let the consumer drain, then stop it
+			for i := 0; i < 200; i++ {
+				if s, _, _ := sizes(); s == 0 {
+					break
+				}
+				time.Sleep(time.Millisecond)
+			}
+			time.Sleep(5 * time.Millisecond)
+			s, s1, s2 := sizes()
+			if s != s1+s2 && dbl {
+				bad = fmt.Sprintf("at quiescence Size() = %d but Size1() + Size2() = %d + %d", s, s1, s2)
+			}
+			for !put[0](stopPill) {
+				time.Sleep(time.Millisecond)
+			}
+			select {
+			case <-consumerDone:
+			case <-time.After(5 * time.Second):
+				if bad == "" {
+					bad = "the consumer blocked in Get() did not return although elements were put after the last Clear (lost wake-up)"
+				}
+			}
+		}
+		rep.Case(fmt.Sprintf("clear-races %s cap=%d r=%d", name, capacity, r), true)
+		rep.Count("clear-races:rounds")
+		if bad == "" {
+			seen := map[int]bool{}
+			for k, x := range delivered {
+				switch {
+				case x == 0:
+					bad = "a blocking Get() returned nil"
+				case seen[x]:
+					bad = fmt.Sprintf("element %d was delivered twice", x)
+				case x < 1 || x > 2*perProd:
+					bad = fmt.Sprintf("element %d was never put", x)
+				default:
+					pd := atomic.LoadInt64(&putDone[x])
+					for _, c := range clears {
+						// put returned before the Clear began, delivery after the Clear returned
+						if pd > 0 && pd < c.t0 && deliveredAt[k] > c.t1 {
+							bad = fmt.Sprintf("element %d, whose Put had returned before a Clear began, was delivered by a Get() called %.2f ms after that Clear had returned (resurrected)", x, float64(deliveredAt[k]-c.t1)/1e6)
+						}
+					}
+				}
+				seen[x] = true
+				if bad != "" {
+					break
+				}
+			}
+		}
+		if bad != "" {
+			key := name + ".Clear:" + map[bool]string{true: "lost-wakeup", false: "inconsistent"}[strings.Contains(bad, "lost wake-up")]
+			rep.Fail("property", key, fmt.Sprintf("%s capacity %d, two producers, Clear in a loop, one blocking consumer: %s", name, capacity, bad),
+				map[string]interface{}{"type": name, "capacity": capacity, "clears": len(clears), "delivered": len(delivered),
+					"how": "2 goroutines put 300 elements each (Put / PutForce on the two lists), one loops Clear(), one loops Get(); afterwards quiescence checks"})
+			return
 		}
 	}
 }
